@@ -101,6 +101,7 @@ func Variants(msaIn io.Reader, stdin bool, refID string, annoIn io.Reader, annoS
 	firstmissing := false
 
 	if stdin && refID != "" {
+		verifhook.Jitter("variants.stdinReference", 0)
 		select {
 		case ref = <-cMSA:
 			if ref.ID != refID {
